@@ -15,7 +15,7 @@ pub const THR: [f64; 7] = [0.0, 0.05, 0.3, 0.5, 0.7, 0.95, 1.0];
 
 pub fn run(tier: Tier) -> i32 {
     let rep = Report::new("C11", tier, "model_checking");
-    rep.set_rule("SCOPE: F0-stream thresholds {0,.05,.3,.5,.7,.95,1} x (default + every single deviation of the other streams' thresholds {0,1} and of every stream's GV weight {0,2}) x voices (V0, P1..P3, generated with voicing weights straddling the lattice) x utterances; trajectories via hook 1; oracle: frame voiced iff msd(state(frame)) > threshold[1] with msd from Models::model_stream(1), voiced sets nested along the thresholds, spectrum/low-pass trajectories bit-identical across F0-threshold and F0-GV-weight values, F0 trajectory bit-identical across other streams' settings, unvoiced frames rendered as the reference noise on a zero-spectrum voice; distinct = (voice, utterance, other deviation, threshold); non-trivial = utterance has both voiced and unvoiced states at some threshold");
+    rep.set_rule("SCOPE: F0-stream thresholds {0,.05,.3,.5,.7,.95,1} x (default + every single deviation of the other streams' thresholds {0,1} and of every stream's GV weight {0,2}) x voices (V0, P1..P3, generated with voicing weights straddling the lattice) x utterances; trajectories via hook 1; oracle: frame voiced iff msd(state(frame)) > threshold[1] with msd from Models::model_stream(1), voiced sets nested along the thresholds, spectrum/low-pass trajectories bit-identical across F0-threshold and F0-GV-weight values, F0 trajectory bit-identical across other streams' settings, unvoiced frames rendered as the reference noise and voiced frames as pulse trains on zero-spectrum voices (one of them with log-F0 leaves at 15 Hz); distinct = (voice, utterance, other deviation, threshold); non-trivial = utterance has both voiced and unvoiced states at some threshold");
     rep.assume("threshold lattice only; state(frame) derived from DurationEstimator::create through the public API");
     let corpus = labels::corpus();
     let mut utts: Vec<Vec<String>> = vec![vec![corpus[41].clone()], corpus[40..43].to_vec(), corpus[0..3].to_vec()];
@@ -169,7 +169,22 @@ pub fn run(tier: Tier) -> i32 {
     // end-to-end: unvoiced frames are rendered as noise (zero-spectrum 2-stream voice: identity filter, no mixed excitation)
     let zcfg = GenCfg { ns: 2, nstate: 5, zero_spectrum: true, wset: 0, ..GenCfg::default() };
     let ze = engine_from_bytes(&zcfg.bytes()).expect("zero-spectrum voice");
+    // the same voice with half of its log-F0 leaves far below the audible range (15 Hz): such frames are still
+    // voiced - how the vocoder limits their pitch is C07's business, but they must not be rendered as noise
+    let ze_low = {
+        let mut spec = zcfg.spec();
+        for (_, _, pdfs) in spec.streams[1].model.trees.iter_mut() {
+            for (li, pdf) in pdfs.iter_mut().enumerate() {
+                if li % 2 == 0 {
+                    pdf[0] = (15.0f32).ln();
+                }
+            }
+        }
+        engine_from_bytes(&crate::gen::voice::write(&spec)).expect("zero-spectrum voice with very low F0")
+    };
     let mut e2e = 0u64;
+    let mut voiced_frames_rendered = 0u64;
+    for (zi, ze) in [&ze, &ze_low].into_iter().enumerate() {
     for u in utts.iter().take(3) {
         for &th in &THR {
             let mut e = ze.clone();
@@ -190,23 +205,35 @@ pub fn run(tier: Tier) -> i32 {
             .unwrap_or_default();
             rep.eval(1);
             e2e += 1;
+            let rp = json!({"voice": zcfg.describe(), "very_low_f0_leaves": zi == 1, "labels": u, "f0_threshold": th});
             let mut k = 0;
             for (fi, f) in t.1.iter().enumerate() {
                 if f[0] == NODATA {
                     for i in 0..fp {
                         rep.cmp(1);
                         if w[fi * fp + i].to_bits() != noise[k].to_bits() {
-                            rep.violation("unvoiced-not-noise", format!("unvoiced frame {} sample {} is {} but the noise excitation is {}", fi, i, w[fi * fp + i], noise[k]), json!({"voice": zcfg.describe(), "labels": u, "f0_threshold": th}));
+                            rep.violation("unvoiced-not-noise", format!("unvoiced frame {} sample {} is {} but the noise excitation is {}", fi, i, w[fi * fp + i], noise[k]), rp.clone());
                             break;
                         }
                         k += 1;
+                    }
+                } else {
+                    // a voiced frame is a pulse train through the identity filter: almost all samples are exactly 0
+                    rep.cmp(1);
+                    voiced_frames_rendered += 1;
+                    let nonzero = w[fi * fp..(fi + 1) * fp].iter().filter(|x| **x != 0.0).count();
+                    if nonzero > fp / 4 {
+                        rep.violation("voiced-rendered-as-noise", format!("frame {} is voiced (log-F0 {}) but {} of its {} samples are non-zero: it was not rendered as a pulse train", fi, f[0], nonzero, fp), rp.clone());
+                        break;
                     }
                 }
             }
         }
     }
+    }
+    rep.guard(voiced_frames_rendered > 50, "hardly any voiced frame rendered end to end");
     rep.nontrivial.store(nontriv.load(Ordering::Relaxed), Ordering::Relaxed);
-    rep.note("bounds", json!({"thresholds": THR, "voices": voices.iter().map(|v| v.0.clone()).collect::<Vec<_>>(), "utterances": utts.len(), "jobs": jobs.len(), "frames_turning_unvoiced_along_thresholds": flips.load(Ordering::Relaxed), "end_to_end_noise_runs": e2e}));
+    rep.note("bounds", json!({"thresholds": THR, "voices": voices.iter().map(|v| v.0.clone()).collect::<Vec<_>>(), "utterances": utts.len(), "jobs": jobs.len(), "frames_turning_unvoiced_along_thresholds": flips.load(Ordering::Relaxed), "end_to_end_noise_runs": e2e, "voiced_frames_rendered": voiced_frames_rendered}));
     rep.sample(json!({"voice": "V0", "labels": utts[0], "other_condition": [], "f0_thresholds": THR}));
     rep.sample_last(json!({"voice": voices.last().unwrap().0, "labels": utts.last().unwrap(), "other_condition": "Gv(2, 2.0)"}));
     rep.guard(flips.load(Ordering::Relaxed) > 10, "thresholds never flipped a frame");
